@@ -154,12 +154,69 @@ def run_unit(ctx, unit):
     st.see("exit_codes", rc)
 
 
+def run_unreadable(ctx, unit):
+    """Inputs that cannot be read at all: stdin that is a directory (the very first read fails), a file argument that does not
+    exist, a directory given where the first read fails.  The run must end with a non-zero status and a message on stderr,
+    under every policy, and must not print rows it did not read."""
+    import tempfile
+    st = ctx.stats
+    binary = ctx.params["binary"]
+    args = ["--on-error", unit["policy"]] + unit["config"]
+    d = tempfile.mkdtemp(prefix="c20-", dir=os.path.join(core.TARGET, "scratch"))
+    try:
+        good = os.path.join(d, "a.json")
+        with open(good, "wb") as f:
+            f.write(b'{"a": 1}\n{"a": 2}\n')
+        kind = unit["unreadable"]
+        if kind == "stdin-directory":
+            fd = os.open(d, os.O_RDONLY)
+            try:
+                p = subprocess.run([binary] + args, stdin=fd, stdout=subprocess.PIPE, stderr=subprocess.PIPE, timeout=60)
+            finally:
+                os.close(fd)
+            must_fail = True
+        elif kind == "missing-file":
+            p = subprocess.run([binary, os.path.join(d, "missing.json")] + args, stdin=subprocess.DEVNULL, stdout=subprocess.PIPE, stderr=subprocess.PIPE, timeout=60)
+            must_fail = True
+        elif kind == "missing-second-file":
+            p = subprocess.run([binary, good, os.path.join(d, "missing.json")] + args, stdin=subprocess.DEVNULL, stdout=subprocess.PIPE, stderr=subprocess.PIPE, timeout=60)
+            # a later input that is never needed (the limit was reached before) need not be looked at
+            must_fail = "--take" not in unit["config"]
+        else:   # unreadable-file (a directory symlinked as a file cannot be produced portably): a file we may not read
+            os.chmod(good, 0)
+            p = subprocess.run([binary, good] + args, stdin=subprocess.DEVNULL, stdout=subprocess.PIPE, stderr=subprocess.PIPE, timeout=60)
+            must_fail = os.geteuid() != 0
+    except subprocess.TimeoutExpired:
+        st.inconc("child_timeout")
+        return
+    finally:
+        import shutil
+        shutil.rmtree(d, ignore_errors=True)
+    st.count("spawns")
+    st.count("conclusive")
+    st.count("unreadable_input_runs")
+    if must_fail and (p.returncode == 0 or not p.stderr):
+        st.violation("unreadable-input-not-reported", "input could not be read (%s) but exit status is %d and stderr is %r [policy %s, config %s]" % (
+            kind, p.returncode, p.stderr[:200], unit["policy"], unit["config"]), unit, {"args": args, "stdout": p.stdout[:300]})
+        return
+    if p.returncode < 0:
+        st.violation("killed-by-signal", "the child was killed by signal %d" % -p.returncode, unit, {"args": args})
+        return
+    st.see("nontrivial", (unit["policy"], kind, p.returncode))
+
+
 def worker(ctx):
     st = ctx.stats
     for i in range(ctx.params["units_per_worker"]):
         if ctx.expired():
             st.count("stopped_by_deadline")
             break
+        if ctx.rng.random() < 0.12:
+            unit = {"unreadable": ctx.rng.choice(["stdin-directory", "missing-file", "missing-second-file", "unreadable-file"]),
+                    "policy": ctx.rng.choice(POLICIES), "config": ctx.rng.choice(VALID), "values": [], "gaps": [[]], "wsseed": 0, "sep": "\n", "sink": "pipe",
+                    "valid": True}
+            run_unreadable(ctx, unit)
+            continue
         unit = gen_unit(ctx.rng)
         run_unit(ctx, unit)
         if i < 1 and ctx.idx < 2:
@@ -175,7 +232,7 @@ def run(env):
         print("INCONCLUSIVE property=%s build failed: %s" % (PROP, e))
         return 2
     stats = core.run_workers(__name__, "worker", PROP, env.tier, env.seed, env.driver, env.hooks_on,
-                             60 if quick else 600, {"units_per_worker": 60 if quick else 2000, "binary": binary})
+                             60 if quick else 600, {"units_per_worker": 150 if quick else 3000, "binary": binary})
     return core.finish(PROP, env.tier, env.seed, LEVEL, stats, env.t0, RULE, min_conclusive=300 if quick else 5000,
                        evaluations_key="spawns",
                        assumptions=["the in-process run of the same build (jawk::go under the driver) is the reference for what stdout/stderr should contain",
@@ -187,5 +244,8 @@ def replay(env, unit):
 
     def ru(ctx, unit):
         ctx.params["binary"] = binary
-        run_unit(ctx, unit)
+        if unit.get("unreadable"):
+            run_unreadable(ctx, unit)
+        else:
+            run_unit(ctx, unit)
     return replay_unit(env, ru, unit)
